@@ -114,6 +114,35 @@ func (c *Ctx) owner(in ssa.Instruction) *ssa.Function {
 	return in.Parent()
 }
 
+// alwaysBefore: on every feasible path of fn (helpers inlined) that reaches b,
+// a was executed first. Unlike dominance this sees that a helper's error
+// return never leads to b.
+func (c *Ctx) alwaysBefore(fn *ssa.Function, a, b ssa.Instruction) bool {
+	ok, _, und := c.Precedes(fn, nil, nil, func(in ssa.Instruction) bool { return in == a }, func(in ssa.Instruction) bool { return in == b })
+	return ok && !und
+}
+
+// onlyIn: instruction in lies in one of the named functions, or in a helper
+// that is only called from them.
+func (c *Ctx) onlyIn(in ssa.Instruction, names ...string) bool {
+	tops := c.tops(in)
+	if len(tops) == 0 {
+		return false
+	}
+	for _, t := range tops {
+		ok := false
+		for _, n := range names {
+			if c.name(t) == n {
+				ok = true
+			}
+		}
+		if !ok {
+			return false
+		}
+	}
+	return true
+}
+
 // scope declares fn the anchor under analysis until the returned function is
 // called: helpers shared with other anchors are then read in fn's context.
 func (c *Ctx) scope(fn *ssa.Function) func() {
@@ -578,7 +607,7 @@ func structLitFields(alloc ssa.Value) map[string]ssa.Value {
 		}
 		for _, r2 := range eng.Referrers(fa) {
 			if s, ok := r2.(*ssa.Store); ok && s.Addr == fa {
-				out[fv.Name()] = s.Val
+				out[eng.CanonFieldName(fa.X.Type(), fa.Field)] = s.Val
 			}
 		}
 	}
